@@ -1570,4 +1570,37 @@ theorem unbatchG_wf' (first : CRec) (rest : List CRec) (size : CRec → Nat) (bk
   simp only [unbatchG, hfirst]
   exact unbatchAll_wf bk (first :: rest) size h
 
+/-! ## Phase 4: pipelines sharing one Cache object -/
+
+theorem cachedRun_spec {α β} (nSlice : Nat) (items : List α) (st : Option (CacheSt α)) (h : cacheInv items st)
+    (reads : List (Option Nat × (List α → β))) :
+    cachedRun nSlice items st reads = reads.map (fun r => r.2 (readSpec items r.1)) := by
+  induction reads generalizing st with
+  | nil => rfl
+  | cons r rs ih =>
+    obtain ⟨h1, h2⟩ := cacheRead_spec nSlice items st r.1 h
+    simp only [cachedRun, cachedRead, List.map_cons, h2, ih _ h1]
+
+theorem cachedRun_full {α β} (nSlice : Nat) (items : List α)
+    (reads : List (Option Nat × (List α → β)))
+    (hp : ∀ r ∈ reads, r.2 (readSpec items r.1) = r.2 items) :
+    cachedRun nSlice items none reads = reads.map (fun r => r.2 items) := by
+  rw [cachedRun_spec nSlice items none trivial reads]
+  exact List.map_congr_left hp
+
+theorem take_need' {α} (count : Option Nat) (strict : Bool) (items : List α) :
+    take count strict (readSpec items (takeNeed count)) = take count strict items := by
+  cases count with
+  | none => rfl
+  | some n => simp [take, readSpec, takeNeed, List.take_take]
+
+theorem slice_need' {α} (start stop : Option Nat) (step : Nat) (items : List α) :
+    slice start stop step (readSpec items (sliceNeed stop)) = slice start stop step items := by
+  cases stop with
+  | none => rfl
+  | some n => simp [slice, readSpec, sliceNeed, List.take_take]
+
+theorem sealing_cex : cacheRunSealing 25 (List.range 60) none [some 1, none] = [[0], List.range 25] := by
+  decide
+
 end Coba.C09
